@@ -24,7 +24,7 @@ from vmon.props.c11 import solo_result
 LEVEL = "exploration"
 SHARDS = {"quick": 16, "thorough": 16}
 MUST = ["spelling.styles", "trivia.comment", "trivia.pi", "trivia.whitespace", "trivia.paths_probed", "special_names.loads", "load.forms_rotated", "load.form.str-path", "load.form.Path", "load.form.open-file", "load.form.load_xml-or-stream", "layout.one-line", "layout.crlf", "layout.blank-lines", "layout.tabs", "layout.no-indent", "layout.entities", "history.runs", "history.failed_prior_loads",
-        "history.style_changes", "baseline.fresh_process", "path.ContextCalibratorList", "path.EntryList", "path.ComparisonList"]
+        "history.style_changes", "baseline.fresh_process", "path.ContextCalibratorList", "path.BaseContainer", "path.EntryList", "path.ComparisonList"]
 RULE = ("case = (document IR, rendering = namespace convention x trivia placement, history of prior loads); fingerprint "
         "(canonical written XML + decode of steered packets) must equal the baseline. Renderings: 15 namespace conventions; inter-element whitespace layouts "
         "(none at all = whole document on one line, CRLF, blank lines, tabs, no indentation); an unrelated default namespace "
@@ -137,6 +137,13 @@ def make_doc(seed, i):
     if i % 4 == 1:
         import dataclasses
         doc = dataclasses.replace(doc, system_name=None)      # a SpaceSystem without a name attribute
+    if i % 3 == 2:
+        import dataclasses
+        kids = [c for c in doc.containers if c.base is not None]
+        if kids:
+            # one container inherits unconditionally: <BaseContainer containerRef="..."/> is then an EMPTY element (a trivia site)
+            k0 = kids[i % len(kids)]
+            doc = dataclasses.replace(doc, containers=tuple(dataclasses.replace(c, criteria=None) if c is k0 else c for c in doc.containers))
     return doc, packets
 
 
@@ -166,6 +173,16 @@ def bad_inputs(rng, doc):
         d2 = ir.Doc(doc.types, doc.params, doc.containers + (bad,), doc.root, doc.system_name, doc.date)
         style = rng.choice([("prefix", "xtce"), ("default",), ("none",), ("prefix", "q")])
         out.append((name, render.render_doc(d2, ns_style=style), prefix_of(style)))
+    # operator spellings the library does not accept (upper case): in a Condition's <ComparisonOperator> text and in a Comparison's
+    # attribute. Both documents are invalid whatever was loaded before them.
+    for name, crit in (("uppercase-operator-in-condition", ir.BoolExpr(ir.Condition("VERSION", "GEQ", right_value="0", right_cal=False))),
+                       ("uppercase-operator-in-comparison", (ir.Comparison("VERSION", "0", "GEQ", False),)),
+                       ("padded-operator-in-comparison", (ir.Comparison("VERSION", "0", " >= ", False),))):
+        xt = ir.PType("OPX_Type", "float", ir.IntEnc(8, "unsigned", False, None, (ir.ContextCal(crit, ir.Poly(((2.0, 1),))),)))
+        d3 = ir.Doc(doc.types[:7] + (xt,), doc.params[:7] + (ir.Param("OPX", "OPX_Type"),),
+                    (ir.Container("CCSDSPacket", tuple(("p", p.name) for p in doc.params[:7]) + (("p", "OPX"),)),))
+        style = rng.choice([("prefix", "xtce"), ("default",), ("none",)])
+        out.append((name, render.render_doc(d3, ns_style=style), prefix_of(style)))
     return out
 
 
@@ -246,6 +263,8 @@ def run(ctx):
                 probed_paths.add(pth)
                 if tail in ("ContextCalibratorList", "EntryList", "ComparisonList"):
                     ctx.count(f"path.{tail}")
+                if tail == "BaseContainer" and any(c.base is not None and c.criteria is None for c in doc.containers):
+                    ctx.count("path.BaseContainer")       # incl. trivia inside an EMPTY BaseContainer element
                 ctx.sig("trivia", kind, pth.replace("/SpaceSystem/TelemetryMetaData", ""))
                 if fp != base:
                     ctx.violation(f"spelling/trivia/{kind}/in-{tail}/{fp[0]}{'/' + fp[1] if fp[0] != 'ok' else ''}",
@@ -259,6 +278,10 @@ def run(ctx):
                     st = monitored(load_definition, data, pfx)
                     hist.append("bad:" + name + (":loaded!" if st.exc is None else ""))
                     ctx.count("history.failed_prior_loads")
+                    if st.exc is None:
+                        # an invalid document stays invalid whatever was loaded before it
+                        ctx.violation(f"history/invalid-document-loaded/{name}", f"the invalid document '{name}' loaded without error after history {hist[:-1]}",
+                                      {"doc": i, "history": hist})
                 else:
                     od, _op = rng.choice(others)
                     style = rng.choice(STYLES)
@@ -292,7 +315,7 @@ def run(ctx):
     ctx.note("namespace class states seen: " + repr(sorted(states))[:600])
 
 
-SPECIAL = ['"1', "(1)", "-1", "+1", ",1", "=1", "#1", "@1", "*", "|1", "{1}", "~1", "!", "$", "%1", ";1", "?", "\u00e4", "&1", "<1", ")(", "(", "_x-y.z"[:4]]
+SPECIAL = ['"1', "+TEMP", ",VOLT", "#B", "-x", "=y", "@z", "(1)", "-1", "+1", ",1", "=1", "#1", "@1", "*", "|1", "{1}", "~1", "!", "$", "%1", ";1", "?", "\u00e4", "&1", "<1", ")(", "(", "_x-y.z"[:4]]
 
 
 def special_names(ctx):
